@@ -1149,7 +1149,15 @@ impl PartialEq for DataArc {
     fn eq(&self, other: &Self) -> bool {
         // It's really important to check first of both arc reference the same object, otherwise the compare
         // a deadlock will occur.
-        Arc::ptr_eq(&self.arc, &other.arc) || self.arc.lock().unwrap().eq(other.lock().unwrap().deref())
+        if Arc::ptr_eq(&self.arc, &other.arc) {
+            return true;
+        }
+        // An operand may be locked by the evaluation that triggered this comparison ('v == [v]'):
+        // a value that is being held can't be equal to a value nested inside the other operand.
+        match (self.arc.try_lock(), other.arc.try_lock()) {
+            (Ok(l), Ok(r)) => l.eq(r.deref()),
+            _ => false,
+        }
     }
 }
 
